@@ -72,6 +72,38 @@ impl std::fmt::Display for KindErr {
 }
 impl std::error::Error for KindErr {}
 
+/// A selector that always fails with an error that has a two-level cause chain.
+#[derive(Debug)]
+pub struct ChainFail;
+#[derive(Debug)]
+pub struct ChainErr(u8);
+impl std::fmt::Display for ChainErr {
+    fn fmt(&self, f: &mut std::fmt::Formatter<'_>) -> std::fmt::Result {
+        match self.0 {
+            0 => write!(f, "outer failure of the member"),
+            1 => write!(f, "middle cause"),
+            _ => write!(f, "root cause #7"),
+        }
+    }
+}
+impl std::error::Error for ChainErr {
+    fn source(&self) -> Option<&(dyn std::error::Error + 'static)> {
+        static MIDDLE: ChainErr = ChainErr(1);
+        static ROOT: ChainErr = ChainErr(2);
+        match self.0 {
+            0 => Some(&MIDDLE),
+            1 => Some(&ROOT),
+            _ => None,
+        }
+    }
+}
+impl Selector<Pop> for ChainFail {
+    type Error = ChainErr;
+    fn select<'pop, R: Rng + ?Sized>(&self, _: &'pop Pop, _: &mut R) -> Result<&'pop IndS, ChainErr> {
+        Err(ChainErr(0))
+    }
+}
+
 type G = Vec<bool>;
 
 /// How a scripted probe draws from the generator it is handed: through each of the three
@@ -463,6 +495,32 @@ fn round(g: &mut Xo, rep: &mut Report) {
         } };
         if let Some(why) = problem {
             rep.violation("C17/DynWeighted(single member)/differs-from-member", || json!({"member": format!("{kind:?}"), "population_size": n, "why": why}));
+        }
+    }
+
+    // ... and a member whose error has a cause chain: the whole chain must still be reachable
+    // through source() from what the list reports
+    {
+        use ec_core::operator::selector::dyn_weighted::DynWeighted;
+        let dw: DynWeighted<Pop> = DynWeighted::new(ChainFail, 2);
+        rep.eval();
+        rep.count("DynWeighted(member error with a cause chain)");
+        match dw.select(&pop, &mut TraceRng::stream(seed)) {
+            Ok(_) => rep.violation("C17/DynWeighted(single member)/differs-from-member", || json!({"member": "always fails", "why": "the list selected although its only member fails"})),
+            Err(e) => {
+                let (top, mut chain) = err_chain(&e);
+                chain.insert(0, top);
+                let want = ["outer failure of the member", "middle cause", "root cause #7"];
+                let mut pos = 0usize;
+                for c in &chain {
+                    if pos < want.len() && c.contains(want[pos]) {
+                        pos += 1;
+                    }
+                }
+                if pos != want.len() {
+                    rep.violation("C17/DynWeighted(single member)/error-chain-lost", || json!({"member_error_chain": want, "chain_reachable_through_source()": chain}));
+                }
+            }
         }
     }
 
